@@ -80,7 +80,7 @@ def main():
     # ---- Trace_Notch (a recorded walk of the real extended Neuber law)
     from .drivers import c06
     tw, _ = c06._walk(('EN', c06.MATERIALS[0], 2.0, c06.TOLS[1], [0.2, 0.5, 0.9]))
-    tw = {k: tw[k] for k in ('law', 'lgKp', 'tau', 'spur', 'bresP', 'bresS', 'steps')}
+    tw = {k: tw[k] for k in ('law', 'lgKp', 'tau', 'bresP', 'bresS', 'steps')}
     def mod4(f):
         t = copy.deepcopy(tw); f(t); return t
     U = 1048576
